@@ -3,8 +3,10 @@
 Decided statically: the filter / dedup / order / truncate structure — tombstoned slots are dropped when internal ids are
 mapped to external ids; the merge dedups by id, sorts by distance and truncates to k; every Ok return of the three search
 entry points returns a cache hit, the merge result, or a vector that passed sort ≺ truncate; hot candidates are validated
-(C04.R1); the recent-write tier is scanned exhaustively except under cancellation.  That the reported distance equals the
-true distance (SIMD numerics) and the "strictly closer recent write is never missing" inequality are not decided.
+(C04.R1); the recent-write tier is scanned exhaustively except under cancellation; inside that scan a finite candidate is
+dropped only against the CURRENT top of the full bounded heap (R8); clamp / min / max on the distance paths keep the whole
+range of the quantity (R9).  That the reported distance equals the true distance (SIMD numerics) and the "strictly closer
+recent write is never missing" inequality as arithmetic are not decided.
 """
 import re
 
@@ -17,7 +19,9 @@ MANIFEST = {
             'merge_knn_results = collect from an id-keyed map ≺ sort_by(distance) ≺ truncate(k), hot entries inserted before cold ones '
             'only fill absent keys; each search entry point returns only cache hits, merge results or sorted+truncated partial results; '
             'hot candidates pass the canonical filter; the hot scan leaves its loop early only under the cancellation flag. Distances, '
-            'float tolerance and the recency inequality are not decided. One distance scale per metric across index, recent-write scan and query-cache invalidation (unit analysis).',
+            'float tolerance and the recency inequality are not decided. One distance scale per metric across index, recent-write scan and query-cache invalidation (unit analysis). '
+            'Top-k selection of the recent-write scan: candidates are rejected only against the top of the full heap, re-read after every replacement (R8). Range '
+            'restrictions (clamp / min / max with constant bounds) on the per-metric distance paths never cut into the range of a similarity, 1 − similarity or Euclidean distance (R9).',
     'design_ref': 'DESIGN.md §4.6',
     'note': 'Trusted base: rustc MIR, ordered-effect chains, origin tracing.',
     'technique': 'dominance / ordered chains / origin whitelists over result construction sites on MIR',
@@ -94,7 +98,8 @@ def _short(b):
 
 def run(ctx, prog):
     ctx.not_decided = ['reported distance = true distance within tolerance (SIMD kernels, user-distance conversion)',
-                       'a strictly closer acknowledged recent write is never missing (needs distances)', 'k-oversampling arithmetic under high tombstone ratios']
+                       'a strictly closer acknowledged recent write is never missing, as an inequality over distances (R8 decides the selection structure of the recent-write scan only)',
+                       'k-oversampling arithmetic under high tombstone ratios']
     # ------------------------------------------------------------------ R1
     ctx.rule('C06.R1', 'tombstone filter: in HnswBackend::knn_search_with_ef_cancel and knn_search_batch every SearchResult pushed to the output '
                        'has a doc_id taken from internal_to_external.get(internal id) on the Some(Some(_)) edge, and keeps the distance of the raw hit')
@@ -322,6 +327,7 @@ def run(ctx, prog):
                 k6 += 1
         ctx.floor('C06.R6', 'exclusive store / index acquisitions in compact_tombstones', k6, 2, 'index.write, doc_store.write')
     hot_topk_selection(ctx, prog)
+    range_restrictions(ctx, prog)
     ctx.stat('functions_analysed', len(set(i['key'].split(' | ')[1] for i in ctx.instances)))
 
 
@@ -391,3 +397,95 @@ def hot_topk_selection(ctx, prog):
              ('after %s at %s the test at %s is reachable without a new BinaryHeap::peek (its bound was read at %s): the bound lags behind the heap, a farther document can replace a '
               'closer one' % (flow.short(stale[0][0].callee), stale[0][0].loc, f.loc_of(stale[0][1]), sorted(peeks[p_].loc for p_ in stale[0][2] if p_ in peeks))) if stale else
              '%d changes of the full heap, %d tests; every path from a change to a test passes the peek the test is computed from' % (len(muts), len(tests)))
+
+
+# the interval a quantity of each unit can take (None = unbounded); SIM is a similarity that was divided by the norms (or taken between unit vectors)
+RANGES = {'SIM': (-1.0, 1.0), 'DIST1': (0.0, 2.0), 'L2': (0.0, None), 'L2SQ': (0.0, None), 'NORM': (0.0, None), 'NORMSQ': (0.0, None)}
+
+
+def _fconst(e):
+    while e[0] == 'cast':
+        e = e[1]
+    if e[0] == 'un' and e[1] == 'Neg':
+        v = _fconst(e[2])
+        return None if v is None else -v
+    if e[0] != 'const':
+        return None
+    if e[2] is not None:
+        return float(e[2])
+    m = re.match(r'^(-?[0-9][0-9_]*(?:\.[0-9_]+)?(?:[eE][-+]?[0-9]+)?)(?:_?f(?:32|64))?$', str(e[1]))
+    if m:
+        return float(m.group(1).replace('_', ''))
+    v = str(e[1])
+    if 'NEG_INFINITY' in v:
+        return float('-inf')
+    if 'INFINITY' in v:
+        return float('inf')
+    return None
+
+
+def range_restrictions(ctx, prog):
+    """C06.R9 — the unit analysis of R5 treats clamp / min / max as the identity; this decides that they are one on the whole range of the quantity."""
+    rid = 'C06.R9'
+    ctx.rule(rid, 'range restrictions keep the whole range: every clamp / min / max with constant bounds that the per-metric distance of a tier passes through (index kernel and '
+                  'user conversion, recent-write scan, query-cache comparison — the expressions R5 assigns units to) leaves the mathematical range of the quantity it is applied to '
+                  'untouched: a similarity −1 … 1, a distance 1 − similarity 0 … 2, a (squared) Euclidean distance or norm 0 … ∞. Such a call exists to absorb rounding at the ends '
+                  'of the range; a bound inside the range (clamp(0, 1) on a cosine similarity) replaces true values: the tier then reports a distance that is not the distance '
+                  'between query and document, and the merge orders and truncates by it')
+    from kvstatic import scale
+
+    class Rec(scale.Scale):
+        def __init__(self, *a, **k):
+            scale.Scale.__init__(self, *a, **k)
+            self.seen = {}
+
+        def kind(self, e, body, variant, env, depth=0, enum=None):
+            if e[0] == 'call' and e[1] != '<indirect>' and len(e) > 3 and e[3] is not None:
+                sh = flow.short(e[1])
+                if any(sh.endswith(p_) for p_ in scale.PASS_THROUGH) and not sh.endswith('::abs') and e[2]:
+                    k0 = scale.Scale.kind(self, e[2][0], body, variant, env, depth, enum)
+                    self.seen.setdefault(id(e[3]), (e[3], sh, set(), e[2][1:]))[2].add(k0)
+            return scale.Scale.kind(self, e, body, variant, env, depth, enum)
+    sc = Rec(prog)
+    dm = prog.adts.get('kyrodb_engine::config::DistanceMetric') or next((a for k, a in prog.adts.items() if k.endswith('::DistanceMetric')), None)
+    variants = [v['name'] for v in dm['variants']] if dm else []
+    fm, kd, mu = ctx.body(rid, 'MetricDistanceKernel::for_metric'), ctx.body(rid, 'MetricDistanceKernel::distance'), ctx.body(rid, 'ann_backend::metric_distance_to_user')
+    qd, pf, hk = ctx.body(rid, 'QueryHashCache::distance'), ctx.body(rid, 'QueryHashCache::insert_can_affect_cached_boundary'), ctx.body(rid, 'HotTier::knn_search_with_cancel')
+    # the distance the scan ranks by = what it tests for finiteness (R4), whatever the variable is called
+    fin = [c for c in hk.calls if c.callee and c.callee.endswith('f32::is_finite') and c.args and c.bb in hk.reach(hk.succ(c.bb))]
+    if len(fin) != 1:
+        ctx.missing(rid, 'knn_search_with_cancel: the one finiteness test of the scan distance (%d found)' % len(fin))
+        return
+    for V in variants:
+        live, n = scale.specialised_blocks(fm, 'DistanceMetric', V)
+        m = re.match(r'^ann_backend::MetricDistanceKernel::(\w+)\{.*→(ResolvedF32Kernels\.\w+)\}$', flow.render(flow.Origin(fm, live=live).of_local(0)))
+        if m:
+            K, field = m.group(1), m.group(2)
+            raw = sc.ret_kind(kd, K, {'payload:' + K: scale.KERNEL_FIELDS.get(field, '?')}, enum='MetricDistanceKernel')
+            user = sc.ret_kind(mu, V, {'raw_distance': raw})
+        else:
+            user = '?'      # R5 reports the unrecognised kernel selection
+        live, n = scale.specialised_blocks(hk, 'DistanceMetric', V)
+        sc.kind(flow.Origin(hk, live=live).of_operand(fin[0].args[0]), hk, V, {})
+        sc.ret_kind(qd, V)
+        sc.ret_kind(pf, V, {'worst_cached_distance': user})
+    n = 0
+    for c, sh, kinds, bounds in sorted(sc.seen.values(), key=lambda x: (x[0].body.id, x[0].loc)):
+        cs = [_fconst(b_) for b_ in bounds]
+        rng = [RANGES[k_] for k_ in kinds if k_ in RANGES]
+        if not cs or any(v is None for v in cs) or not rng:
+            continue        # a bound that is computed, or a quantity without a unit: not a range restriction this rule can judge
+        n += 1
+        meth = sh.rsplit('::', 1)[-1]
+        lo, hi = (cs[0], cs[1]) if meth == 'clamp' and len(cs) == 2 else (cs[0], None) if meth == 'max' else (None, cs[0])
+        bad = [(k_, RANGES[k_]) for k_ in sorted(kinds) if k_ in RANGES and ((lo is not None and lo > RANGES[k_][0]) or (hi is not None and (RANGES[k_][1] is None or hi < RANGES[k_][1])))]
+        who = c.body.short.split('::{')[0]
+        k9 = sum(1 for x in ctx.instances if x.get('config') == ctx.config and x['rule'] == rid and x['key'].startswith('%s | %s | %s #' % (rid, who, meth)))
+        fmt = lambda v: '∞' if v is None else ('%g' % v)
+        ctx.inst(rid, who, '%s #%d keeps the whole range of the quantity it is applied to' % (meth, k9), not bad,
+                 '%s(%s) on a %s (range %s)%s' % (meth, ', '.join('%g' % v for v in cs), '/'.join(sorted(kinds)), ', '.join('%s … %s' % (fmt(RANGES[k_][0]), fmt(RANGES[k_][1])) for k_ in sorted(kinds) if k_ in RANGES),
+                                                 '' if not bad else ' at %s — values between %s are replaced by the bound: the tier reports a distance that is not the true one (with clamp(0, 1) on '
+                                                 'a cosine similarity every document farther than orthogonal is reported at distance 1)' % (c.loc, ' and '.join(
+                                                     ([('%s and %g' % (fmt(bad[0][1][0]), lo))] if lo is not None and lo > bad[0][1][0] else []) +
+                                                     ([('%g and %s' % (hi, fmt(bad[0][1][1])))] if hi is not None and (bad[0][1][1] is None or hi < bad[0][1][1]) else [])))))
+    ctx.floor(rid, 'range restrictions with constant bounds on the distance paths', n, 3, 'index: max(·, 0) twice; recent-write scan: clamp(−1, 1) twice; pre-filter: max(·, 0) (5 on the pinned tree)')
